@@ -117,9 +117,10 @@ def Loadable (defaults file : Val) (env : Env) : Bool :=
   defaults.nodup && file.nodup && env.consistent && defaults.compatB file
     && (merge defaults file).compatB (envTree env.entries)
 
-/-- a complete configuration the environment can express: leafy, different keys, every property name expressible -/
+/-- a complete configuration the environment can express: leafy, different keys, every property name expressible,
+    and no list element that is defined to be nil (a variable cannot say that, known finding C20-nil-list-element) -/
 def Expressible (t : Val) : Bool :=
-  t.nodup && t.leafy && t.leaves.all (fun l => pathOk l.1)
+  t.nodup && t.leafy && t.leaves.all (fun l => pathOk l.1 && !holeVar l.1 l.2)
 
 /-- `p` and `q` lie on one branch (one is a prefix of the other) -/
 def onBranch : Path → Path → Bool
@@ -130,7 +131,8 @@ def onBranch : Path → Path → Bool
 /-- some variable of the environment addresses `p`, something below `p` or something above `p` -/
 def Env.touches (env : Env) (p : Path) : Bool := env.any fun e => onBranch (parseName e.1) p
 
-/-- leaf-wise rule: the environment wins, then the file, then the defaults -/
+/-- leaf-wise rule: the environment wins (with whatever value it defines, nil included), then the file, then the
+    defaults -/
 def specLeaf (defaults file : Val) (env : Env) (p : Path) : Val :=
   match env.find? (fun e => parseName e.1 == p) with
   | some e => .atom e.2
@@ -140,13 +142,19 @@ def specLeaf (defaults file : Val) (env : Env) (p : Path) : Val :=
       | .null => defaults.get p
       | v => v
 
+/-- the place shows the value `a`: the scalar itself; a value that is defined to be nil (`nullText`) is also shown by
+    a place that holds nothing (a Go slice cannot tell a nil entry from an unfilled one, and to the typed decoding a nil
+    map entry and an absent one are the same) -/
+def showsLeaf (v : Val) (a : String) : Bool := v == .atom a || (a == nullText && v == .null)
+
 /-- executable oracle: is `r` an acceptable result of loading `defaults`, `file`, `env`?
-    every variable's value is at its path; every leaf of the file the environment does not touch is there; every
-    default leaf neither file nor environment touch is there; and `r` has no leaf from anywhere else -/
+    every variable's value – a nil value included, at a property as well as at a list position – is at its path; every
+    leaf of the file the environment does not touch is there; every default leaf neither file nor environment touch
+    is there; and `r` has no leaf from anywhere else -/
 def specAccepts (defaults file : Val) (env : Env) (r : Val) : Bool :=
-  env.all (fun e => r.get (parseName e.1) == .atom e.2)
-  && file.leaves.all (fun l => env.touches l.1 || r.get l.1 == .atom l.2)
-  && defaults.leaves.all (fun l => env.touches l.1 || file.get l.1 != .null || r.get l.1 == .atom l.2)
+  env.all (fun e => showsLeaf (r.get (parseName e.1)) e.2)
+  && file.leaves.all (fun l => env.touches l.1 || showsLeaf (r.get l.1) l.2)
+  && defaults.leaves.all (fun l => env.touches l.1 || file.get l.1 != .null || showsLeaf (r.get l.1) l.2)
   && r.leaves.all (fun l =>
         env.any (fun e => parseName e.1 == l.1 && e.2 == l.2)
         || file.get l.1 == .atom l.2 || defaults.get l.1 == .atom l.2)
